@@ -46,7 +46,7 @@ type Prop struct {
 
 var Registry = map[string]*Prop{}
 
-var watchdogSecs = 120
+var watchdogSecs = 45
 
 func register(p *Prop) { Registry[p.ID] = p }
 
